@@ -21,7 +21,29 @@ tvars == <<l, used>>
 
 IsEv(e) == l <= Len(Rec) /\ Rec[l].ev = e /\ l' = l + 1
 
-Comps == {"hdr", "q", "an", "ns", "ar", "iter", "cname", "opt", "selfans", "sole", "xfr"}
+Comps == {"hdr", "hdrx", "q", "an", "ns", "ar", "iter", "cname", "opt", "selfans", "sole", "xfr", "recat"}
+
+\* The typed walks.  Where the specification does not know a type's layout
+\* (<<"o">>) a value ("o") and an error ("e") are both acceptable, but the
+\* same record must fare the same in every view that reads it by the same
+\* layout: view 1 (limit_to::<AllRecordData>) takes every record, so its
+\* j-th element belongs to the j-th item, and every other view except the
+\* ZoneRecordData one (which reads pseudo-types as raw octets) must agree
+\* with it on the items it takes.
+ElemOk(e, o) == IF e = <<"o">> THEN o \in {<<"o">>, <<"e">>} ELSE e = o
+WalkOk(e, o) == Len(e) = Len(o) /\ \A j \in 1..Len(e) : ElemOk(e[j], o[j])
+ZoneViews == {i \in 1..Len(W!TViews) : W!TViews[i].d = "Zone"}
+UndAgree(m, x, S, o) ==
+  \A i \in (2..Len(W!TViews)) \ ZoneViews :
+    LET idx == W!TIdx(W!TViews[i], S.sec[x], 1) IN
+    \A j \in 1..Len(idx) : (o[1][idx[j]] \in {<<"o">>, <<"e">>} /\ o[i][j] \in {<<"o">>, <<"e">>}) => o[i][j] = o[1][idx[j]]
+TypedOk(m, exp, obs) ==
+  LET S == W!Sections(m) IN
+  /\ Len(obs) = 3
+  /\ \A x \in 1..3 :
+       /\ Len(obs[x]) = Len(exp[x])
+       /\ \A i \in 1..Len(exp[x]) : WalkOk(exp[x][i], obs[x][i])
+       /\ Len(exp[x]) > 0 => UndAgree(m, x, S, obs[x])
 
 \* per component the observation is what the property requires (idl) or,
 \* for an open deviation, what the code does today (exp); a repaired
@@ -32,12 +54,13 @@ SlOk(exp, idl, obs) ==
                              \/ idl[i] = obs[i]
                              \/ (idl[i] = W!SlFinite /\ obs[i] >= 0)
 
-Matches(exp, idl, obs) ==
+Matches(m, exp, idl, obs) ==
   IF exp.short THEN obs = [short |-> TRUE]
   ELSE /\ DOMAIN obs = DOMAIN exp
        /\ obs.short = FALSE
        /\ \A c \in Comps : obs[c] = exp[c] \/ obs[c] = idl[c]
        /\ SlOk(exp.sl, idl.sl, obs.sl)
+       /\ TypedOk(m, exp.typed, obs.typed)
 
 TInit == l = 1 /\ used = {}
 
@@ -46,7 +69,7 @@ T_Read ==
   /\ LET exp == W!Projection(Rec[l].m, Rec[l].starts)
          idl == Ideal!Projection(Rec[l].m, Rec[l].starts)
          obs == Rec[l].proj
-     IN /\ (IF Matches(exp, idl, obs) THEN TRUE ELSE FALSE)   \* one evaluation, no action splitting
+     IN /\ (IF Matches(Rec[l].m, exp, idl, obs) THEN TRUE ELSE FALSE)   \* one evaluation, no action splitting
         /\ used' = used \cup
              (IF exp.short THEN {}
               ELSE (IF obs.cname # idl.cname THEN {"D_cname_ancount_overflow"} ELSE {})
